@@ -31,9 +31,10 @@ summary = ('%d changes so far: %d caught at once by the quick command, %d missed
 p = HERE + '/DESIGN.md'
 s = open(p).read()
 s = re.sub(r'<!-- seed-summary -->.*?<!-- /seed-summary -->',
-           '<!-- seed-summary -->' + summary + '<!-- /seed-summary -->', s, flags=re.S)
+           lambda m_: '<!-- seed-summary -->' + summary + '<!-- /seed-summary -->',
+           s, flags=re.S)
 s = re.sub(r'<!-- seed-table -->.*?<!-- /seed-table -->',
-           '<!-- seed-table -->\n' + '\n'.join(rows) + '\n<!-- /seed-table -->', s,
-           flags=re.S)
+           lambda m_: ('<!-- seed-table -->\n' + '\n'.join(rows) +
+                       '\n<!-- /seed-table -->'), s, flags=re.S)
 open(p, 'w').write(s)
 print(summary)
